@@ -1,10 +1,8 @@
 (* C05 ProofsM.v -- the in-buffer builder against the sorted association list.
-   PARTIAL: agreement is established by complete enumeration of all push
-   sequences of length <= 5 over 5 keys (duplicates included; the data length
-   differs per key so that the offsets differ) -- push_raw only looks at the
-   relative order of the keys.  The inductive refinement proof for every push
-   order is not done; T2 `svcbuild` runs the in-buffer model against the
-   implementation and the list model on every case. *)
+   A complete enumeration of all push sequences of length <= 5 over 5 keys
+   (duplicates included; data lengths differ per key so that offsets differ).
+   The theorem for every push sequence is ProofsP.inbuf_refines_list; this
+   file stays as an independent check of the two models. *)
 From Coq Require Import Arith NArith List Bool.
 From DV Require Import Base.Outcome Base.Bytes Base.Names Base.PName
   C05.Schema C05.Gen C05.OptModel C05.SvcModel C05.SvcBuf.
